@@ -1856,3 +1856,263 @@ impl Query {
         Query { body, order: self.order.clone(), limit: self.limit }
     }
 }
+
+// ------------------------------------------------------------------------------------ datafusion_expr bridge
+
+use datafusion_common::{DFSchema, ScalarValue};
+use datafusion_expr::{BinaryExpr as DfBinary, Expr as DfExpr, Operator};
+
+impl Val {
+    pub fn scalar(&self, ty: Ty) -> ScalarValue {
+        match (self, ty) {
+            (Val::Null, Ty::Int(8)) => ScalarValue::Int8(None),
+            (Val::Null, Ty::Int(16)) => ScalarValue::Int16(None),
+            (Val::Null, Ty::Int(32)) => ScalarValue::Int32(None),
+            (Val::Null, Ty::Int(_)) => ScalarValue::Int64(None),
+            (Val::Null, Ty::Bool) => ScalarValue::Boolean(None),
+            (Val::Null, Ty::Str) => ScalarValue::Utf8(None),
+            (Val::Int(8, n), _) => ScalarValue::Int8(Some(*n as i8)),
+            (Val::Int(16, n), _) => ScalarValue::Int16(Some(*n as i16)),
+            (Val::Int(32, n), _) => ScalarValue::Int32(Some(*n as i32)),
+            (Val::Int(_, n), _) => ScalarValue::Int64(Some(*n)),
+            (Val::Bool(b), _) => ScalarValue::Boolean(Some(*b)),
+            (Val::Str(s), _) => ScalarValue::Utf8(Some(s.clone())),
+        }
+    }
+}
+
+pub fn scalar_val(s: &ScalarValue) -> Option<Val> {
+    Some(match s {
+        ScalarValue::Null => Val::Null,
+        ScalarValue::Int8(v) => v.map(|n| Val::Int(8, n as i64)).unwrap_or(Val::Null),
+        ScalarValue::Int16(v) => v.map(|n| Val::Int(16, n as i64)).unwrap_or(Val::Null),
+        ScalarValue::Int32(v) => v.map(|n| Val::Int(32, n as i64)).unwrap_or(Val::Null),
+        ScalarValue::Int64(v) => v.map(|n| Val::Int(64, n)).unwrap_or(Val::Null),
+        ScalarValue::Boolean(v) => v.map(Val::Bool).unwrap_or(Val::Null),
+        ScalarValue::Utf8(v) | ScalarValue::LargeUtf8(v) | ScalarValue::Utf8View(v) => v.clone().map(Val::Str).unwrap_or(Val::Null),
+        _ => return None,
+    })
+}
+
+impl Op {
+    pub fn df(&self) -> Operator {
+        match self {
+            Op::Add => Operator::Plus,
+            Op::Sub => Operator::Minus,
+            Op::Mul => Operator::Multiply,
+            Op::Div => Operator::Divide,
+            Op::Mod => Operator::Modulo,
+            Op::Eq => Operator::Eq,
+            Op::Ne => Operator::NotEq,
+            Op::Lt => Operator::Lt,
+            Op::Le => Operator::LtEq,
+            Op::Gt => Operator::Gt,
+            Op::Ge => Operator::GtEq,
+            Op::And => Operator::And,
+            Op::Or => Operator::Or,
+            Op::Distinct => Operator::IsDistinctFrom,
+            Op::NotDistinct => Operator::IsNotDistinctFrom,
+            Op::Concat => Operator::StringConcat,
+        }
+    }
+    pub fn of_df(op: &Operator) -> Option<Op> {
+        Some(match op {
+            Operator::Plus => Op::Add,
+            Operator::Minus => Op::Sub,
+            Operator::Multiply => Op::Mul,
+            Operator::Divide => Op::Div,
+            Operator::Modulo => Op::Mod,
+            Operator::Eq => Op::Eq,
+            Operator::NotEq => Op::Ne,
+            Operator::Lt => Op::Lt,
+            Operator::LtEq => Op::Le,
+            Operator::Gt => Op::Gt,
+            Operator::GtEq => Op::Ge,
+            Operator::And => Op::And,
+            Operator::Or => Op::Or,
+            Operator::IsDistinctFrom => Op::Distinct,
+            Operator::IsNotDistinctFrom => Op::NotDistinct,
+            Operator::StringConcat => Op::Concat,
+            _ => return None,
+        })
+    }
+}
+
+impl Expr {
+    /// the expression as a `datafusion_expr::Expr` over columns named as in `cols`
+    /// (implicit casts are written explicitly: no analyzer runs on this path)
+    pub fn df(&self, cols: &[(String, Ty)]) -> DfExpr {
+        use datafusion_expr::expr as dx;
+        let b = |e: &Expr| Box::new(e.df(cols));
+        match self {
+            Expr::Col(i) => datafusion_expr::col(cols[*i].0.as_str()),
+            Expr::Outer(_) | Expr::Sub { .. } => panic!("no datafusion_expr form"),
+            Expr::Lit(v, ty, _) => DfExpr::Literal(v.scalar(*ty), None),
+            Expr::Ph(i, _) => datafusion_expr::placeholder(format!("${}", i + 1)),
+            Expr::Bin(op, a, c) => DfExpr::BinaryExpr(DfBinary { left: b(a), op: op.df(), right: b(c) }),
+            Expr::Not(a) => DfExpr::Not(b(a)),
+            Expr::Neg(a) => DfExpr::Negative(b(a)),
+            Expr::Is(k, n, a) => match (k, n) {
+                (IsKind::Null, false) => DfExpr::IsNull(b(a)),
+                (IsKind::Null, true) => DfExpr::IsNotNull(b(a)),
+                (IsKind::True, false) => DfExpr::IsTrue(b(a)),
+                (IsKind::True, true) => DfExpr::IsNotTrue(b(a)),
+                (IsKind::False, false) => DfExpr::IsFalse(b(a)),
+                (IsKind::False, true) => DfExpr::IsNotFalse(b(a)),
+                (IsKind::Unknown, false) => DfExpr::IsUnknown(b(a)),
+                (IsKind::Unknown, true) => DfExpr::IsNotUnknown(b(a)),
+            },
+            Expr::In(n, a, l) => DfExpr::InList(dx::InList { expr: b(a), list: l.iter().map(|e| e.df(cols)).collect(), negated: *n }),
+            Expr::Between(n, a, lo, hi) => DfExpr::Between(dx::Between { expr: b(a), negated: *n, low: b(lo), high: b(hi) }),
+            Expr::Case(op, whens, els) => DfExpr::Case(dx::Case {
+                expr: op.as_ref().map(|o| b(o)),
+                when_then_expr: whens.iter().map(|(w, t)| (b(w), b(t))).collect(),
+                else_expr: els.as_ref().map(|o| b(o)),
+            }),
+            Expr::Coalesce(args) => datafusion_functions::core::expr_fn::coalesce(args.iter().map(|e| e.df(cols)).collect()),
+            Expr::Nullif(a, c) => datafusion_functions::core::expr_fn::nullif(a.df(cols), c.df(cols)),
+            Expr::Cast { ty, try_, e, .. } => {
+                if *try_ {
+                    datafusion_expr::try_cast(e.df(cols), ty.arrow())
+                } else {
+                    datafusion_expr::cast(e.df(cols), ty.arrow())
+                }
+            }
+            Expr::Like { neg, ci, e, pat, esc } => DfExpr::Like(dx::Like { negated: *neg, expr: b(e), pattern: b(pat), escape_char: *esc, case_insensitive: *ci }),
+        }
+    }
+}
+
+pub fn ty_of_arrow(dt: &DataType) -> Option<Ty> {
+    Some(match dt {
+        DataType::Int8 => Ty::Int(8),
+        DataType::Int16 => Ty::Int(16),
+        DataType::Int32 => Ty::Int(32),
+        DataType::Int64 => Ty::Int(64),
+        DataType::Boolean => Ty::Bool,
+        DataType::Utf8 | DataType::LargeUtf8 | DataType::Utf8View => Ty::Str,
+        _ => return None,
+    })
+}
+
+/// export a real `datafusion_expr::Expr` as a model s-expression; `Err(what)` when it contains a
+/// construct outside the model
+pub fn export_df(e: &DfExpr, schema: &DFSchema) -> Result<String, String> {
+    let r = |x: &DfExpr| export_df(x, schema);
+    let is = |k: &str, n: bool, x: &DfExpr| -> Result<String, String> { Ok(format!("(is {k} {} {})", b2a(n), export_df(x, schema)?)) };
+    Ok(match e {
+        DfExpr::Column(c) => {
+            let i = schema.index_of_column(c).map_err(|e| e.to_string())?;
+            format!("(col {i})")
+        }
+        DfExpr::Literal(s, _) => match scalar_val(s) {
+            Some(v) => format!("(lit {})", v.sexp()),
+            None => return Err(format!("literal {s:?}")),
+        },
+        DfExpr::Alias(a) => r(&a.expr)?,
+        DfExpr::BinaryExpr(DfBinary { left, op, right }) => match Op::of_df(op) {
+            Some(o) => format!("(bin {} {} {})", o.sexp(), r(left)?, r(right)?),
+            None => return Err(format!("operator {op}")),
+        },
+        DfExpr::Not(a) => format!("(not {})", r(a)?),
+        DfExpr::Negative(a) => format!("(neg {})", r(a)?),
+        DfExpr::IsNull(a) => is("null", false, a)?,
+        DfExpr::IsNotNull(a) => is("null", true, a)?,
+        DfExpr::IsTrue(a) => is("true", false, a)?,
+        DfExpr::IsNotTrue(a) => is("true", true, a)?,
+        DfExpr::IsFalse(a) => is("false", false, a)?,
+        DfExpr::IsNotFalse(a) => is("false", true, a)?,
+        DfExpr::IsUnknown(a) => is("unknown", false, a)?,
+        DfExpr::IsNotUnknown(a) => is("unknown", true, a)?,
+        DfExpr::InList(l) => {
+            let mut s = format!("(in {} {}", b2a(l.negated), r(&l.expr)?);
+            for x in &l.list {
+                s.push(' ');
+                s.push_str(&r(x)?);
+            }
+            s.push(')');
+            s
+        }
+        DfExpr::Between(bt) => format!("(between {} {} {} {})", b2a(bt.negated), r(&bt.expr)?, r(&bt.low)?, r(&bt.high)?),
+        DfExpr::Case(c) => {
+            let mut s = String::from("(case (");
+            if let Some(o) = &c.expr {
+                s.push_str(&r(o)?);
+            }
+            s.push_str(") (");
+            for (i, (w, t)) in c.when_then_expr.iter().enumerate() {
+                if i > 0 {
+                    s.push(' ');
+                }
+                let _ = write!(s, "({} {})", r(w)?, r(t)?);
+            }
+            s.push_str(") (");
+            if let Some(o) = &c.else_expr {
+                s.push_str(&r(o)?);
+            }
+            s.push_str("))");
+            s
+        }
+        DfExpr::Cast(c) => match ty_of_arrow(c.field.data_type()) {
+            Some(t) => format!("(cast {} f {})", t.sexp(), r(&c.expr)?),
+            None => return Err(format!("cast to {}", c.field.data_type())),
+        },
+        DfExpr::TryCast(c) => match ty_of_arrow(c.field.data_type()) {
+            Some(t) => format!("(cast {} t {})", t.sexp(), r(&c.expr)?),
+            None => return Err(format!("try_cast to {}", c.field.data_type())),
+        },
+        DfExpr::Like(l) => format!(
+            "(like {} {} {} {} ({}))",
+            b2a(l.negated),
+            b2a(l.case_insensitive),
+            r(&l.expr)?,
+            r(&l.pattern)?,
+            l.escape_char.map(|c| (c as u32).to_string()).unwrap_or_default()
+        ),
+        DfExpr::ScalarFunction(f) => match f.name() {
+            "coalesce" => {
+                let mut s = String::from("(coalesce");
+                for a in &f.args {
+                    s.push(' ');
+                    s.push_str(&r(a)?);
+                }
+                s.push(')');
+                s
+            }
+            "nullif" if f.args.len() == 2 => format!("(nullif {} {})", r(&f.args[0])?, r(&f.args[1])?),
+            n => return Err(format!("function {n}")),
+        },
+        other => return Err(format!("node {}", other.variant_name())),
+    })
+}
+
+/// all rows over the given per-column domains (cartesian product)
+pub fn all_rows(domains: &[Vec<Val>]) -> Vec<Vec<Val>> {
+    let mut out: Vec<Vec<Val>> = vec![vec![]];
+    for d in domains {
+        let mut next = Vec::with_capacity(out.len() * d.len());
+        for r in &out {
+            for v in d {
+                let mut r2 = r.clone();
+                r2.push(v.clone());
+                next.push(r2);
+            }
+        }
+        out = next;
+    }
+    out
+}
+
+/// the small exhaustive domain of a type (boundaries, NULL, duplicates of interest)
+pub fn domain_of(ty: Ty) -> Vec<Val> {
+    match ty {
+        Ty::Int(w) => vec![Val::Null, Val::Int(w, int_min(w)), Val::Int(w, -1), Val::Int(w, 0), Val::Int(w, 1), Val::Int(w, 2), Val::Int(w, int_max(w))],
+        Ty::Bool => vec![Val::Null, Val::Bool(false), Val::Bool(true)],
+        Ty::Str => vec![Val::Null, Val::Str("".into()), Val::Str("a".into()), Val::Str("ab".into()), Val::Str("12".into()), Val::Str("A%".into())],
+    }
+}
+
+/// values of an array as model values
+pub fn vals_of_array(a: &dyn Array) -> Result<Vec<Val>, String> {
+    (0..a.len()).map(|i| cell(a, i).ok_or_else(|| format!("unmodelled type {:?}", a.data_type()))).collect()
+}
